@@ -45,6 +45,10 @@ def _pre_k1(s0, s1, s2, s3, s4, s5, c0, c1, c2, c3, c4, c5) -> bool:
     for k in fixed:
         if vals[k] != fixed[k]:
             return False
+    for group in c.get('tie', ()):
+        for k in group[1:]:
+            if vals[k] != vals[group[0]]:
+                return False
     return True
 
 
@@ -92,30 +96,35 @@ def _k1_obligations(tier: str) -> List[Ob]:
     obs = []
     names = 's0..s5 = number of elements the suite supplies for conf, setup, act, before-assert, assert, cleanup; ' \
             'c0..c5 = number of elements the case holds'
-    if tier == 'quick':
-        # all 4096 subsets (suite x case) of phases with contents, split by the suite's conf / setup bits
+    S_ALL = ('s0', 's1', 's2', 's3', 's4', 's5')
+    C_ALL = ('c0', 'c1', 'c2', 'c3', 'c4', 'c5')
+    entry = 'resolve_test_case_handling_setup(suite document, default).transformer.transform(case)'
+    kq = 1
+    obs.append(Ob(name='K1:transform:suite-subsets', fn='k1_transform', case=dict(kmax=kq, tie=(C_ALL,)), kernel='K1',
+                  timeout=400, real=REAL_K1, entry=entry,
+                  bound='every subset of the six phases in which the suite supplies an element x the case holds an element '
+                        'in every phase / in no phase; ' + names))
+    obs.append(Ob(name='K1:transform:case-subsets', fn='k1_transform', case=dict(kmax=kq, tie=(S_ALL,)), kernel='K1',
+                  timeout=400, real=REAL_K1, entry=entry,
+                  bound='every subset of the six phases in which the case holds an element x the suite supplies an element '
+                        'in every phase / in no phase; ' + names))
+    if tier == 'thorough':
+        # all 4096 pairs of subsets, split by the suite's conf / setup bits
         for a in (0, 1):
             for b in (0, 1):
                 obs.append(Ob(name='K1:transform:s0=%d,s1=%d' % (a, b), fn='k1_transform',
                               case=dict(kmax=1, fixed=dict(s0=a, s1=b)), kernel='K1', timeout=900,
                               bound='every subset of the six phases in which the suite supplies one element (conf: %d, '
                                     'setup: %d) x every subset in which the case holds one; %s' % (a, b, names),
-                              real=REAL_K1, entry='resolve_test_case_handling_setup(suite document, default).transformer.transform(case)'))
-    else:
-        for a in (0, 1, 2):
-            for b in (0, 1, 2):
-                obs.append(Ob(name='K1:transform:s2=%d,s5=%d' % (a, b), fn='k1_transform',
-                              case=dict(kmax=2, fixed=dict(s2=a, s5=b, c0=1, c3=1)), kernel='K1', timeout=3000,
-                              bound='0..2 elements per phase from the suite (act: %d, cleanup: %d) and from the case '
-                                    '(conf and before-assert: 1); %s' % (a, b, names),
-                              real=REAL_K1, entry='resolve_test_case_handling_setup(...).transformer.transform(case)'))
-        for a in (0, 1):
-            for b in (0, 1):
-                obs.append(Ob(name='K1:transform:s0=%d,s1=%d' % (a, b), fn='k1_transform',
-                              case=dict(kmax=1, fixed=dict(s0=a, s1=b)), kernel='K1', timeout=900,
-                              bound='every subset of the six phases in which the suite supplies one element (conf: %d, '
-                                    'setup: %d) x every subset in which the case holds one; %s' % (a, b, names),
-                              real=REAL_K1, entry='resolve_test_case_handling_setup(...).transformer.transform(case)'))
+                              real=REAL_K1, entry=entry))
+        obs.append(Ob(name='K1:transform:suite-counts', fn='k1_transform', case=dict(kmax=2, tie=(C_ALL,)), kernel='K1',
+                      timeout=2000, real=REAL_K1, entry=entry,
+                      bound='0..2 elements per phase from the suite, independently per phase x the case holds 0 / 1 / 2 '
+                            'elements in every phase; ' + names))
+        obs.append(Ob(name='K1:transform:case-counts', fn='k1_transform', case=dict(kmax=2, tie=(S_ALL,)), kernel='K1',
+                      timeout=2000, real=REAL_K1, entry=entry,
+                      bound='0..2 elements per phase in the case, independently per phase x the suite supplies 0 / 1 / 2 '
+                            'elements for every phase; ' + names))
     obs.append(Ob(name='K1:transform:default-transformer', fn='k1_transform',
                   case=dict(kmax=1, default_marks=True, fixed=dict(s0=1, c0=1, s2=0, c2=1, s3=1, c3=0)), kernel='K1', timeout=600,
                   bound='a default transformer that marks the case (appends one element to every phase) is applied before '
@@ -202,6 +211,8 @@ def _pre_k2(m0: int, f0: int, t0: int, m1: int, f1: int, t1: int, tcfg: int, tcf
             return False
     if tcfg_none and tcfg != 0:
         return False
+    if 'tcfg_none' in c and tcfg_none != c['tcfg_none']:
+        return False
     return True
 
 
@@ -233,22 +244,48 @@ def _k2_obligations(tier: str) -> List[Ob]:
     obs = []
     what = ('the misbehaving instruction does each applicable one of %s and then ends with each applicable one of %s; '
             'the timeout it sets, the configured timeout: every integer (or none)')
-    for ci in range(len(L.MUT_CELLS)):
-        for envd in ((ci % 2 == 0,) if tier == 'quick' else (False, True)):
-            c = dict(cells=(ci,), environ_is_dict=envd)
-            if tier == 'quick':
-                c['faults'] = (xh.OK, xh.EXC) if ci % 2 == 0 else (xh.OK, xh.HARD_EXC)
-            obs.append(Ob(name='K2:%s:%s' % (_cell_name(ci), 'environ-dict' if envd else 'environ-none'), fn='k2_sequence',
-                          case=c, kernel='K2', timeout=900,
-                          bound='two cases on one executor: case 1 misbehaves at step %s, case 2 observes at every step; '
-                                % (_cell_name(ci),) + what % (list(L.MUTATIONS), 'the fault kinds %s' % (
-                                    list(c['faults']) if 'faults' in c else 'OK / validation error / hard error / HardErrorException / '
-                                                                           'other exception / FAIL',))
-                                + '; configured environ: %s' % ('a dict' if envd else 'None (default getter)'),
-                          real=REAL_K2, stubs=(STUB_INSTRUCTIONS, STUB_RESOLVER),
-                          entry='processors.new_executor_that_should_not_pollute_current_processes(conf).apply, twice'))
+    all_faults = 'OK / validation error / hard error / HardErrorException / other exception / FAIL'
+    fault_names = {xh.OK: 'OK', xh.VAL: 'validation error', xh.HARD: 'hard error', xh.HARD_EXC: 'HardErrorException',
+                   xh.EXC: 'other exception', xh.FAIL: 'FAIL'}
+    plans = []  # (cells, environ_is_dict, extra case params)
+    if tier == 'quick':
+        for ci in range(len(L.MUT_CELLS)):
+            cell = L.MUT_CELLS[ci]
+            if cell[:2] == ('setup', 'main'):
+                extra = dict(faults=(xh.OK, xh.EXC))
+            elif cell[:2] == ('cleanup', 'main'):
+                extra = dict(faults=(xh.OK, xh.HARD_EXC))
+            elif cell[:2] == ('setup', 'pre'):
+                extra = dict(faults=(xh.OK, xh.VAL))
+            else:
+                extra = dict(faults=(xh.OK,))
+            extra['tcfg_none'] = (ci % 3 == 1)
+            plans.append(((ci,), ci % 2 == 0, extra))
+    else:
+        for ci in range(len(L.MUT_CELLS)):
+            for envd in (False, True):
+                plans.append(((ci,), envd, {}))
+        # two misbehaving cases before the observer
+        sm = [i for i, cl in enumerate(L.MUT_CELLS) if cl[:2] == ('setup', 'main')][0]
+        for ci in range(1, len(L.MUT_CELLS)):
+            plans.append(((sm, ci), ci % 2 == 0, dict(faults=(xh.OK, xh.EXC), tcfg_none=False)))
+    for cells, envd, extra in plans:
+        c = dict(cells=cells, environ_is_dict=envd)
+        c.update(extra)
+        steps = ' and then '.join('a case that misbehaves at step %s' % _cell_name(ci) for ci in cells)
+        obs.append(Ob(name='K2:%s:%s' % ('+'.join(_cell_name(ci) for ci in cells), 'environ-dict' if envd else 'environ-none'),
+                      fn='k2_sequence', case=c, kernel='K2', timeout=1200 if len(cells) == 1 else 3000,
+                      bound='%d cases on one executor: %s, then a case that observes at every step; ' % (len(cells) + 1, steps)
+                            + what % (list(L.MUTATIONS), 'the fault kinds %s' % (
+                                [fault_names[f] for f in c['faults']] if 'faults' in c else all_faults,))
+                            + '; configured environ: %s' % ('a dict' if envd else 'None (default getter)')
+                            + ('; configured timeout: %s' % ('none' if c['tcfg_none'] else 'an integer') if 'tcfg_none' in c else ''),
+                      real=REAL_K2, stubs=(STUB_INSTRUCTIONS, STUB_RESOLVER),
+                      outside=('misbehaviour through channels the executor does not hand out: os.environ of the process, '
+                               'chdir in [conf] (no instruction of that phase is handed a directory)',),
+                      entry='processors.new_executor_that_should_not_pollute_current_processes(conf).apply, once per case'))
     obs.append(Ob(name='K2:seeded-oracle-error', fn='k2_sequence',
-                  case=dict(cells=(2,), environ_is_dict=False, oracle_bug=True, faults=(0,)), kernel='K2', timeout=600,
+                  case=dict(cells=(2,), environ_is_dict=False, oracle_bug=True, faults=(0,), tcfg_none=False), kernel='K2', timeout=600,
                   expect=ob.REFUTE, bound='seeded oracle error: the observer is expected to see the timeout set by the case before it',
                   real=REAL_K2, stubs=(STUB_INSTRUCTIONS, STUB_RESOLVER)))
     return obs
